@@ -160,7 +160,7 @@ func (g *gen) userCall(target *fn, self *fn, guarded bool, depth int) *node {
 	if x < 3 {
 		k = want + 1 // too many: error
 	} else if x < 7 && want > 0 {
-		k = want - 1 // too few: parameter stays unbound (or is found in the caller: chained scopes)
+		k = want - 1 // too few: error (since the repair C04-8; before, the parameter stayed unbound or was found in the caller)
 	}
 	for i := 0; i < k; i++ {
 		args = append(args, g.exprT(self, guarded, depth+1, g.r(100) < 85))
@@ -490,6 +490,8 @@ func classify(r any) (string, string) {
 		return "Err EType", "!type-error"
 	case strings.Contains(msg, "Too many arguments to"):
 		return "Err ETooMany", "!too-many-arguments"
+	case strings.Contains(msg, "Too few arguments to"):
+		return "Err ETooFew", "!too-few-arguments"
 	}
 	return "Err EOther", "!" + cls + " " + msg
 }
